@@ -47,7 +47,8 @@ def make_case(r, g, n_geos, cls=None, elig_mode=None, focus=None, allow=None, id
                       allow=allow or ('size', 'ratio', 'volume', 'share', 'budget', 'ngeos'))
   frame = gen.panel_frame(panel, r, shuffle=True)
   case = {'panel': panel, 'elig_rows': rows, 'params': kw, 'frame': frame, 'extra': extra,
-          'elig_index_keyed': r.random() < 0.3, 'elig_seed': r.randrange(1 << 30)}
+          'elig_index_keyed': r.random() < 0.3, 'elig_seed': r.randrange(1 << 30),
+          'preset_geo_index': r.random() < 0.2}
   return case
 
 
@@ -56,7 +57,8 @@ def describe(case, with_frame=True):
   p = case['panel']
   d = {'geos': [str(i) for i in p['ids']], 'id_style': p['id_style'], 'panel_class': p['cls'],
        'n_dates': len(p['dates']), 'first_date': str(p['dates'][0]), 'features': p['features'],
-       'eligibility': case['elig_rows'], 'params': util.jsonable(case['params']), 'extra': case['extra']}
+       'eligibility': case['elig_rows'], 'params': util.jsonable(case['params']), 'extra': case['extra'],
+       'preset_geo_index': bool(case.get('preset_geo_index'))}
   if with_frame and len(p['ids']) * len(p['dates']) <= 400:
     d['values'] = [[round(float(v), 6) for v in row] for row in p['values']]
   return d
@@ -76,6 +78,9 @@ def build(case, mods=None, params_override=None):
     edf = gen.elig_frame(case['elig_rows'], er, index_keyed=case['elig_index_keyed'])
     elig = emod.GeoEligibility(edf)
   data = dmod.TBRMMData(case['frame'].copy(), 'response', elig)
+  if case.get('preset_geo_index'):
+    # a caller may install a geo index on the data object before handing it to the search object
+    data.geo_index = [gid for gid in data.df.index if gid in data.assignable]
   par = pmod.TBRMMDesignParameters(**(params_override or case['params']))
   mm = smod.TBRMatchedMarkets(data, par)
   return data, par, mm
